@@ -98,7 +98,7 @@ func (s *acctSubscription) authenticate(ctx context.Context) error {
 
 	case err := <-s.errChan:
 		return fmt.Errorf("error during authentication, before "+
-			"sending subscribe: %v", err)
+			"sending subscribe: %w", err)
 
 	case <-ctx.Done():
 		return fmt.Errorf("context canceled before challenge was " +
